@@ -454,17 +454,30 @@ class SymMath:
         return math.sqrt(x)
 
 
+def _max2(a, b, is_max):
+    """Canonical non-forking max/min of two scalars (numeral goes second)."""
+    if _is_num(a) and _is_num(b):
+        a, b = lift(a), lift(b)
+        return (a if a >= b else b) if is_max else (a if a <= b else b)
+    if _is_num(a):
+        a, b = b, a
+    za, zb = _z(a), _z(b)
+    if _is_intsort(za) != _is_intsort(zb):
+        za, zb = _toreal(za), _toreal(zb)
+    return wrap(z3.If(za >= zb, za, zb) if is_max else z3.If(za <= zb, za, zb))
+
+
 def sym_min(*xs):
     r = xs[0]
     for x in xs[1:]:
-        r = ite(x < r, x, r)
+        r = _max2(r, x, False)
     return r
 
 
 def sym_max(*xs):
     r = xs[0]
     for x in xs[1:]:
-        r = ite(x > r, x, r)
+        r = _max2(r, x, True)
     return r
 
 
@@ -549,6 +562,36 @@ def clear_denominators(e, side: list | None = None):
         return r
 
     return walk(e)
+
+
+def recip_abstract(es, table=None):
+    """Replace every division a/b by a * R_b with one fresh real R_b per
+    (canonicalised) divisor b.  An identity that holds with the R_b free holds
+    a fortiori with R_b = 1/b.  Returns (terms, hyps) where hyps are the
+    defining equations R_b * b == 1."""
+    table = {} if table is None else table
+    memo: dict[int, object] = {}
+
+    def walk(t):
+        k = t.get_id()
+        if k in memo:
+            return memo[k]
+        r = t
+        if z3.is_app(t) and t.num_args() > 0:
+            ch = [walk(c) for c in t.children()]
+            if t.decl().kind() == z3.Z3_OP_DIV:
+                b = z3.simplify(ch[1])
+                key = b.get_id()
+                if key not in table:
+                    table[key] = (z3.Real(f'recip!{len(table)}'), b)
+                r = ch[0] * table[key][0]
+            elif any(c.get_id() != o.get_id() for c, o in zip(ch, t.children())):
+                r = t.decl()(*ch)
+        memo[k] = r
+        return r
+    out = [walk(e) for e in es]
+    hyps = [rv * b == 1 for (rv, b) in table.values()]
+    return out, hyps
 
 
 # --------------------------------------------------------------------------
@@ -996,6 +1039,13 @@ class Engine:
         for (arg, r) in self.sqrt_memo:
             if arg.get_id() == x.e.get_id():
                 return SymNum(r)
+        # congruence: an argument provably equal to an earlier one gets the
+        # same result symbol
+        for (arg, r) in self.sqrt_memo:
+            (n1, d1), (n2, d2) = clear_denominators(_toreal(arg)), clear_denominators(_toreal(x.e))
+            res, _ = self._one_shot(self.pc + [n1 * d2 != n2 * d1], min(self.oblige_timeout_ms, 20000))
+            if res == 'unsat':
+                return SymNum(r)
         r = z3.Real(self.autoname('sqrt'))
         self.symbols[str(r)] = r
         self.sqrt_memo.append((x.e, r))
@@ -1136,7 +1186,24 @@ class Engine:
                 if r == 'unsat':
                     verdict = 'unsat'
         if verdict is None and alt is not None:
-            # cleared form first: correct code -> unsat in ms
+            # divisions as free reciprocals, hypothesis-free: a polynomial
+            # identity is settled by z3's normal form in ms, whereas
+            # hypotheses push it into genuine non-linear search
+            (rc,), hyps = recip_abstract([cond])
+            r, m = self._one_shot([z3.Not(rc)], min(tmo, 10000))
+            if r == 'unsat':
+                verdict = 'unsat'
+            elif hyps:
+                r, m = self._one_shot(hyps + [z3.Not(rc)], min(tmo, 10000))
+                if r == 'unsat':
+                    verdict = 'unsat'
+        if verdict is None and alt is not None:
+            # cleared form, hypothesis-free
+            r, m = self._one_shot([z3.Not(alt)], min(tmo, 20000))
+            if r == 'unsat':
+                verdict = 'unsat'
+        if verdict is None and alt is not None:
+            # cleared form under the path condition
             r, m = self._one_shot(self.pc + [z3.Not(alt)], tmo)
             if r == 'unsat':
                 verdict = 'unsat'
